@@ -181,6 +181,13 @@ func VerifyPowershell(r io.ReadSeeker, style PsSigStyle, skipDigests bool) (*Pow
 			return nil, err
 		}
 		if found && line == last {
+			// the signature block must be the end of the file: anything after it
+			// would still be executed but is not covered by the digest
+			if rest, err := io.ReadAll(br); err != nil {
+				return nil, err
+			} else if len(rest) != 0 {
+				return nil, errors.New("malformed powershell signature: content after the signature block")
+			}
 			break
 		} else if found {
 			lstr := string(line)
